@@ -186,6 +186,10 @@ def gen_scenario(rng: random.Random, focus: str = "any") -> dict:
         if rng.random() < 0.35:
             # the control thread is descheduled right where it releases / freezes the clock
             sc["lazy_points"] = [rng.choice(["clock_resume", "clock_pause"])]
+        if rng.random() < 0.15:
+            # a checkpoint whose write fails with an OSError (disk full) while the system is running
+            sc["faults"] = [{"comp": rng.choice(["agent", "env"]), "cb": "save", "k": 2}]
+            sc["client"] = [["delay", 0.5], ["POST", "/api/save-state"]] + sc["client"]
         return sc
     if focus == "C08":
         # timed runs over step durations x logging intervals x scales x limits x pause scripts
